@@ -103,11 +103,13 @@ func VerifC19_Keybase() {
 				model[k] = vEntry{}
 			}
 		case 3: // sign
-			msg := []byte("message to sign")
+			// any bytes, including ones that happen to be JSON in a non-canonical form: the signature is over exactly them
+			msg := [][]byte{[]byte("message to sign"), []byte(`{"b":1,"a":2}`), []byte(` 12`)}[zz.Choice("message", 3)]
 			sig, pub, err := kb.Sign(addrs[k], p, msg)
 			zz.Assert("C19.keybase.sign-needs-right-passphrase", (err == nil) == (model[k].present && model[k].pass == p))
 			if err == nil {
 				zz.Assert("C19.keybase.signature-verifies-under-that-key", pub.VerifyBytes(msg, sig) && bytes.Equal(pub.Address(), addrs[k]))
+				zz.Assert("C19.keybase.signature-is-for-that-message-only", !pub.VerifyBytes(append([]byte("x"), msg...), sig) && !pub.VerifyBytes([]byte(`{"a":2,"b":1}`), sig) && !pub.VerifyBytes([]byte(`12`), sig))
 			}
 		case 4: // export (re-encrypted under another passphrase) and import into a second keybase
 			// the export passphrase may be the same as the (right or wrong) decryption passphrase; the hint may be empty
@@ -141,4 +143,43 @@ func VerifC19_Keybase() {
 		}
 	}
 	zz.Reach("C19.keybase")
+}
+
+// VerifC19_LazyKeybase: the on-disk keybase (it reopens its database for every operation; the database is an
+// in-memory one under the engine, a real LevelDB directory natively): a key exported from one keybase and imported
+// here is stored under the passphrase chosen at import - that passphrase signs, the export passphrase (when different)
+// does not - and has the same address; deleting needs the right passphrase.
+func VerifC19_LazyKeybase() {
+	src := NewInMemory()
+	raw, addr := vPriv(0)
+	if _, err := src.ImportPrivateKeyObject(raw, "origin"); err != nil {
+		panic(err)
+	}
+	ep := []string{"export-pass", "stored-pass"}[zz.Choice("export_pass", 2)]
+	armor, err := src.ExportPrivKeyEncryptedArmor(addr, "origin", ep, "hint")
+	if err != nil {
+		panic(err)
+	}
+	kb := New("keys", zz.TempDir("lazykb"))
+	dp := []string{ep, "wrong"}[zz.Choice("decrypt_with", 2)]
+	kp, err := kb.ImportPrivKey(armor, dp, "stored-pass")
+	zz.Assert("C19.lazy.import-needs-export-passphrase", (err == nil) == (dp == ep))
+	if err != nil {
+		_, gerr := kb.Get(addr)
+		zz.Assert("C19.lazy.failed-import-stores-nothing", gerr != nil)
+		zz.Reach("C19.lazy.rejected")
+		return
+	}
+	zz.Assert("C19.lazy.same-address", bytes.Equal(kp.GetAddress(), addr) && vListed(kb, addr))
+	p := []string{"stored-pass", "export-pass", ""}[zz.Choice("sign_with", 3)]
+	sig, pub, serr := kb.Sign(addr, p, []byte("msg"))
+	zz.Assert("C19.lazy.only-the-import-passphrase-opens-the-key", (serr == nil) == (p == "stored-pass"))
+	if serr == nil {
+		zz.Assert("C19.lazy.signature-verifies", pub.VerifyBytes([]byte("msg"), sig))
+	}
+	derr := kb.Delete(addr, p)
+	zz.Assert("C19.lazy.delete-needs-right-passphrase", (derr == nil) == (p == "stored-pass"))
+	_, gerr := kb.Get(addr)
+	zz.Assert("C19.lazy.deleted-iff-delete-succeeded", (gerr != nil) == (derr == nil))
+	zz.Reach("C19.lazy.end")
 }
